@@ -307,6 +307,7 @@ func ghostStruct(t types.Type) (string, bool) {
 
 func (e *Exec) load(st *State, fr *Frame, p *PtrV, pos token.Pos) Value {
 	e.nilCheck(st, fr, p, pos)
+	e.sharedGlobal(st, fr, p, pos)
 	if p.Kind == PArr {
 		elemS := scalarSort(p.Elem)
 		return &ArrV{Data: st.arrayOf(p.Elem, comp{"", elemS}, p.Arr), N: p.N, Elem: p.Elem}
@@ -384,6 +385,7 @@ func (e *Exec) assumeSliceWF(st *State, s *SliceV) {
 
 func (e *Exec) store(st *State, fr *Frame, p *PtrV, v Value, pos token.Pos) {
 	e.nilCheck(st, fr, p, pos)
+	e.sharedGlobal(st, fr, p, pos)
 	if p.Kind == PArr {
 		a := v.(*ArrV)
 		st.setArrayOf(p.Elem, comp{"", scalarSort(p.Elem)}, p.Arr, a.Data)
@@ -392,6 +394,22 @@ func (e *Exec) store(st *State, fr *Frame, p *PtrV, v Value, pos token.Pos) {
 	l := e.locOf(p)
 	e.frameCheck(st, fr, l, pos)
 	st.StoreLoc(l, v)
+}
+
+// sharedGlobal: a plain (non-atomic) access to a package-level variable declared `shared ... guarded_by atomic`.
+func (e *Exec) sharedGlobal(st *State, fr *Frame, p *PtrV, pos token.Pos) {
+	if e.discovery > 0 || e.specMode > 0 || e.tolerant || e.specs == nil || p.Kind != PObj {
+		return
+	}
+	gr, ok := p.Root.(globalRoot)
+	if !ok {
+		return
+	}
+	for _, sd := range e.specs.shared {
+		if sd.Guard == "atomic" && sd.What == gr.g.Name() {
+			e.oblige(st, fr, "guarded."+sd.Label, pos, False)
+		}
+	}
 }
 
 // alloc creates a zero-initialised object of type t and returns a pointer to it.
@@ -951,8 +969,27 @@ func (e *Exec) makeInterface(st *State, t types.Type, v Value) Value {
 		p := v.(*PtrV)
 		return &IfaceV{Tid: tid, Ref: ptrToTerm(p)}
 	}
-	// boxed value
-	r := st.NewRef()
+	// boxed value: the box reference is a function of the boxed value (equal values give equal interface values);
+	// boxes of different values are not assumed distinct
+	var r *Term
+	func() {
+		defer func() {
+			if x := recover(); x != nil {
+				if _, ok := x.(Unsupported); !ok {
+					panic(x)
+				}
+				r = nil
+			}
+		}()
+		fl := flatten(t, v)
+		if len(fl) > 0 {
+			r = App("box:"+typeKey(t), SInt, fl...)
+			st.AssumeFact(IntLt(r, IntConst(-1000000000))) // boxes live apart from objects and package-level variables
+		}
+	}()
+	if r == nil {
+		r = st.NewRef()
+	}
 	func() {
 		defer func() {
 			if x := recover(); x != nil {
@@ -990,7 +1027,7 @@ func (e *Exec) implementsCond(i *IfaceV, it *types.Interface) *Term {
 		}
 		return Bool(types.Implements(t, it))
 	}
-	return App("implements:"+it.String(), SBool, i.Tid)
+	return And(Not(Eq(i.Tid, IntConst(0))), App("implements:"+it.String(), SBool, i.Tid))
 }
 
 func (e *Exec) typeAssert(st *State, fr *Frame, x *ssa.TypeAssert) Value {
